@@ -297,7 +297,7 @@ def run(tier: str, seed: int) -> int:
     chk.extra["population_comparisons"] = edges
 
     # (ii) 1x1 cells with batches / reductions / per-sample rewards
-    n11 = 400 if quick else 1500
+    n11 = 400 if quick else 5000
     e11 = 0
     for j in range(n11):
         variant = VARIANTS[j % len(VARIANTS)]
@@ -312,7 +312,7 @@ def run(tier: str, seed: int) -> int:
                         persample=rng.random() < 0.5, T=T, rng=rng, form=rng.choice(["float", "t0", "mixed"]),
                         via=rng.choice(["ctor", "override"]))
     chk.note(f"1x1 cells: {n11} runs, {e11} (sample, step) comparisons, mismatches so far={len(mm)}")
-    nmc = 216 if quick else 720
+    nmc = 216 if quick else 2400
     emc = 0
     for j in range(nmc):
         variant = VARIANTS[j % len(VARIANTS)]
@@ -335,7 +335,7 @@ def run(tier: str, seed: int) -> int:
                            "exc": type(ex).__name__, "rule": c["variant"], "delays": c["delays"],
                            "delayed": bool(c["hp"].get("delayed", False))},
                           {"family": "c08", "cell": c, "error": repr(ex)})
-        traces = stdp_traces.c08_traces(chk, rng, 120 if quick else 700, 5, 4, on_raise)
+        traces = stdp_traces.c08_traces(chk, rng, 120 if quick else 2000, 5, 4, on_raise)
         kinds = {}
         for t in traces:
             kinds[t["meta"]["conn"]["kind"]] = kinds.get(t["meta"]["conn"]["kind"], 0) + 1
